@@ -1109,6 +1109,21 @@ func ruleEVENTSIZESOURCE(p *Program, rep *Report) {
 						ok2 = false
 					}
 				}
+				// once the payload is in the buffer the call must not report failure: a caller that is told
+				// "0 bytes written, error" retries the same Write and the payload is in the event twice
+				failAfter := ""
+				for blk := range reachableAvoiding(b, nil, nil) {
+					if r, isRet := blk.Instrs[len(blk.Instrs)-1].(*ssa.Return); isRet && !returnsNilError(r) && len(r.Results) > 0 && errorLike(r.Results[len(r.Results)-1].Type()) {
+						if blk != b || true {
+							failAfter = p.InstrPos(r)
+						}
+					}
+				}
+				if failAfter != "" {
+					rep.Bad("EVENT-SIZE-SOURCE", funcName(fn)+"|Append-then-error", p.InstrPos(ins), "after the payload has been appended to the write buffer "+funcName(fn)+" can still return an error (at "+failAfter+"): the caller is told the write failed and retries it after space was freed — the payload is then in the event twice (wrong size, corrupted event)")
+				} else {
+					rep.OK("EVENT-SIZE-SOURCE", funcName(fn)+"|Append-then-error", p.InstrPos(ins), "no error return is reachable once the payload is appended")
+				}
 				if ok2 {
 					rep.OK("EVENT-SIZE-SOURCE", key, p.InstrPos(ins), "appended payload counted in eventBytes on every path")
 				} else {
@@ -2203,5 +2218,225 @@ func rulePAGESCOUNT(p *Program, rep *Report) {
 	visit(fn, 0)
 	if n == 0 {
 		rep.Unknown("PAGES-COUNT", "buffer.Pages", p.Pos(fn.Pos()), "buffer.Pages has no return with a partial range (anchor lost)")
+	}
+}
+
+
+// ---- CALLBACK-LAST (C17) ----
+
+// ruleCALLBACKLAST: Settings.Flushed / Settings.ACKed are user code and may call back into the queue (enqueue an
+// event from the Flushed callback, ACK from the ACKed callback).  They are therefore invoked only when the
+// bookkeeping of the flush / ACK is complete: no store to the writer's or the acker's state may follow the
+// invocation inside the invoking function — a reset executed after the callback wipes what the callback did.
+func ruleCALLBACKLAST(p *Program, rep *Report) {
+	rep.Rule("CALLBACK-LAST", 2, "after the invocation of Settings.Flushed / Settings.ACKed no store to the Writer's writeState or to the acker's counters is reachable in the invoking function: the callbacks run on consistent, final state (they may re-enter the queue)")
+	cbF := p.FieldVar("pq", "Writer", "flushCB")
+	cbA := p.FieldVar("pq", "acker", "ackCB")
+	n := 0
+	for _, fn := range p.SrcFuncs() {
+		if fnPkgPath(fn) != modPath+"/pq" {
+			continue
+		}
+		for _, b := range fn.Blocks {
+			for i, ins := range b.Instrs {
+				c, ok := ins.(*ssa.Call)
+				if !ok || c.Common().IsInvoke() || c.Common().StaticCallee() != nil {
+					continue
+				}
+				f := loadedField(c.Common().Value)
+				if f != cbF && f != cbA {
+					continue
+				}
+				n++
+				rep.Analysed(funcName(fn))
+				owner := "writeState"
+				if f == cbA {
+					owner = "acker"
+				}
+				key := funcName(fn) + "|" + f.Name()
+				late := ""
+				check := func(x ssa.Instruction) {
+					st, isSt := x.(*ssa.Store)
+					if !isSt {
+						return
+					}
+					g := addrField(st.Addr)
+					if g != nil && pqFieldOwner(p, g) == owner {
+						late = owner + "." + g.Name() + " at " + p.InstrPos(x)
+					}
+				}
+				for j := i + 1; j < len(b.Instrs); j++ {
+					check(b.Instrs[j])
+				}
+				for blk := range reachableAvoiding(b, nil, nil) {
+					if blk == b {
+						continue
+					}
+					for _, x := range blk.Instrs {
+						check(x)
+					}
+				}
+				if late == "" {
+					rep.OK("CALLBACK-LAST", key, p.InstrPos(ins), "no state update follows the callback")
+				} else {
+					rep.Bad("CALLBACK-LAST", key, p.InstrPos(ins), "the user callback is invoked before the bookkeeping is complete: "+late+" is written after it — an event enqueued (or an ACK issued) from inside the callback is counted and then wiped by the late update, so the totals the callbacks report fall behind the events actually flushed / ACKed")
+				}
+			}
+		}
+	}
+	if n == 0 {
+		rep.Unknown("CALLBACK-LAST", "anchor", "", "no invocation of the Flushed / ACKed callbacks found in package pq (anchor lost)")
+	}
+}
+
+// ---- MAPPED-BOUND-EXACT (C10) ----
+
+// ruleMAPPEDBOUNDEXACT: File.mmapedPage hands out mapped[start:end]; the check that guards the slice has to
+// admit exactly what the slice expression admits (end <= len(mapped)).  A stricter guard (end < len) rejects
+// the LAST page of the mapping; for a bounded file the mapping ends exactly at the size limit, so a free-list
+// or overwrite-mapping page that happens to be the last page cannot be read back when the file is opened —
+// while the instance that wrote it never reads its own meta pages and keeps working.
+func ruleMAPPEDBOUNDEXACT(p *Program, rep *Report) {
+	rep.Rule("MAPPED-BOUND-EXACT", 1, "every slice f.mapped[lo:hi] of the memory mapping in File.mmapedPage is guarded by a comparison of hi with len(f.mapped) that admits hi == len (the last page of the mapping is a valid page)")
+	fn := p.Method("txfile", "File", "mmapedPage")
+	mapped := p.FieldVar("txfile", "File", "mapped")
+	rep.Analysed(funcName(fn))
+	isLenMapped := func(v ssa.Value) bool {
+		c, ok := stripConv(v).(*ssa.Call)
+		if !ok {
+			return false
+		}
+		bi, ok := c.Common().Value.(*ssa.Builtin)
+		return ok && bi.Name() == "len" && loadedField(c.Common().Args[0]) == mapped
+	}
+	n := 0
+	for f := range staticReach(p, fn) {
+		if fnPkgPath(f) != modPath {
+			continue
+		}
+		for _, b := range f.Blocks {
+			for _, ins := range b.Instrs {
+				sl, ok := ins.(*ssa.Slice)
+				if !ok || loadedField(sl.X) != mapped || sl.High == nil {
+					continue
+				}
+				n++
+				key := funcName(f) + "|mapped[:hi]"
+				hi := stripConv(sl.High)
+				verdict := "" // "exact", "strict", ""
+				for _, cj := range expandPredicates(p, p.ctxFacts(b), 0) {
+					for _, a := range cj {
+						op, x, y, isCmp := cmpAtom(a)
+						if !isCmp {
+							continue
+						}
+						var rel token.Token // relation  hi REL len
+						switch {
+						case stripConv(x) == hi && isLenMapped(y):
+							rel = op
+						case isLenMapped(x) && stripConv(y) == hi:
+							switch op {
+							case token.LSS:
+								rel = token.GTR
+							case token.LEQ:
+								rel = token.GEQ
+							case token.GTR:
+								rel = token.LSS
+							case token.GEQ:
+								rel = token.LEQ
+							default:
+								rel = op
+							}
+						default:
+							continue
+						}
+						switch rel {
+						case token.LEQ:
+							verdict = "exact"
+						case token.LSS:
+							if verdict == "" {
+								verdict = "strict"
+							}
+						}
+					}
+				}
+				switch verdict {
+				case "exact":
+					rep.OK("MAPPED-BOUND-EXACT", key, p.InstrPos(ins), "guarded by hi <= len(mapped)")
+				case "strict":
+					rep.Bad("MAPPED-BOUND-EXACT", key, p.InstrPos(ins), "the page slice of the memory mapping is guarded by hi < len(mapped): the last page of the mapping is reported as out of bounds. A bounded file is mapped exactly up to its size limit, so a free-list / overwrite-mapping page that is the last page cannot be read when the file is opened again (Open fails) although the writing instance worked")
+				default:
+					rep.Unknown("MAPPED-BOUND-EXACT", key, p.InstrPos(ins), "no dominating comparison of the slice bound with len(File.mapped) found")
+				}
+			}
+		}
+	}
+	if n == 0 {
+		rep.Unknown("MAPPED-BOUND-EXACT", "anchor", p.Pos(fn.Pos()), "File.mmapedPage no longer slices File.mapped (anchor lost)")
+	}
+}
+
+// ---- ADVANCE-BETWEEN-EVENTS (C05) ----
+
+// ruleADVANCEBETWEENEVENTS: the reader skips the unusable tail of a page (fewer bytes than an event header)
+// eagerly after a read — but only when the event is finished.  The tail of a page does hold PAYLOAD of an event
+// that continues on the next page; skipping it while bytes of the event remain drops them (partial reads that
+// end 1–3 bytes before a page end).
+func ruleADVANCEBETWEENEVENTS(p *Program, rep *Report) {
+	rep.Rule("ADVANCE-BETWEEN-EVENTS", 1, "in the reader's copy routine (Reader.readInto and helpers) a call of txCursor.AdvancePage is dominated by the fact that no byte of the current event remains (readState.eventBytes == 0, or the block follows the store that marks the event finished)")
+	root := p.Method("pq", "Reader", "readInto")
+	adv := p.Method("pq", "txCursor", "AdvancePage")
+	evB := p.FieldVar("pq", "readState", "eventBytes")
+	n := 0
+	for _, fn := range sortedFns(staticReach(p, root)) {
+		if fnPkgPath(fn) != modPath+"/pq" || strings.Contains(funcName(fn), "txCursor") || strings.Contains(funcName(fn), "(*pq.cursor)") {
+			continue
+		}
+		for _, b := range fn.Blocks {
+			for i, ins := range b.Instrs {
+				c, ok := ins.(ssa.CallInstruction)
+				if !ok || c.Common().StaticCallee() != adv {
+					continue
+				}
+				n++
+				rep.Analysed(funcName(fn))
+				key := funcName(fn) + "|AdvancePage"
+				finished := false
+				// (a) dominating fact eventBytes == 0 (also through the caller's guard)
+				facts := expandPredicates(p, p.ctxFacts(b), 0)
+				if len(facts) > 0 && facts.every(func(cj conj) bool {
+					return cj.has(func(a atom) bool {
+						op, x, y, isCmp := cmpAtom(a)
+						return isCmp && op == token.EQL && ((loadedField(x) == evB && isIntConst(y, 0)) || (loadedField(y) == evB && isIntConst(x, 0)))
+					})
+				}) {
+					finished = true
+				}
+				// (b) a store marking the event finished (eventBytes = negative constant) dominates the call
+				for _, b2 := range fn.Blocks {
+					for j, in2 := range b2.Instrs {
+						st, isSt := storesToField(in2, evB)
+						if !isSt {
+							continue
+						}
+						k, isC := constIntOf(st.Val)
+						if !isC || k >= 0 {
+							continue
+						}
+						if (b2 == b && j < i) || (b2 != b && b2.Dominates(b)) {
+							finished = true
+						}
+					}
+				}
+				if finished {
+					rep.OK("ADVANCE-BETWEEN-EVENTS", key, p.InstrPos(ins), "page advance only after the event is finished")
+				} else {
+					rep.Bad("ADVANCE-BETWEEN-EVENTS", key, p.InstrPos(ins), "the reader's copy routine advances to the next page although bytes of the current event may remain: the last bytes of a page (fewer than an event header) still hold payload of an event that continues on the next page — a partial Read that stops there loses them, the rest of the event is shifted and the next event is decoded from a wrong offset")
+				}
+			}
+		}
+	}
+	if n == 0 {
+		rep.OK("ADVANCE-BETWEEN-EVENTS", "Reader.readInto|no-advance", p.Pos(root.Pos()), "the copy routine does not advance pages itself")
 	}
 }
